@@ -104,7 +104,22 @@ def gen_body(rng, prim, budget):
     return ops
 
 
+def gen_destroy_scen(rng):
+    """Signal handshake in which the waiter owns the object: exactly one set() by one other thread, the waiter deletes the
+    Signal after its untimed wait() returned (the pattern of Future: the joining thread destroys the future's signal).
+    No correct implementation touches the object after that wait has returned."""
+    k = rng.choice([1, 2])
+    setter = rng.randrange(1, k + 1)
+    main = [f"start-{j}" for j in range(1, k + 1)]
+    rng.shuffle(main)
+    main += ["wait", "destroy"] + [f"join-{j}" for j in range(1, k + 1)]
+    progs = [(rng.randrange(2 ** 32), main)] + [(rng.randrange(2 ** 32), ["set"] if j == setter else []) for j in range(1, k + 1)]
+    return Scen("sig", 0, rng.choice([0, 5]), rng.randrange(NSEC), 1, rng.choice([0, 1, 2]), 0, progs)
+
+
 def gen_scen(rng, prim=None):
+    if prim is None and rng.random() < 0.06:
+        return gen_destroy_scen(rng)
     prim = prim or rng.choice(["mtx", "sem", "sig", "sig", "mon", "mon", "thr"])
     k = rng.choice([1, 2, 2, 3])                      # worker threads; 2..4 threads in total
     rets = [rng.choice([0, 1, 7, 2147483648, 4294967295, rng.randrange(2 ** 32)]) for _ in range(k + 1)]
@@ -193,7 +208,9 @@ def contracts(sc, tr):
     if tr.verdict not in ("done", "deadlock"):
         return "unexpected verdict " + tr.verdict
     if tr.flags:
-        return "harness occupancy counter: " + " ".join(tr.flags)
+        # !exclusion = the harness' own critical-section occupancy counter; !use-after-destroy:<call> = the library called the
+        # POSIX layer on a mutex / condition variable that had been destroyed (undefined behaviour; the model assumes it away)
+        return "flagged by the harness / simulated POSIX layer: " + " ".join(tr.flags)
     n = len(sc.progs)
     now = sc.sec * NSEC + sc.nsec
     pos = [0] * n                      # next op index per thread
@@ -548,6 +565,7 @@ FIXED_SCENARIOS = [
     "scen mon 0 5 0 1000000 1 0 T:0:start-1,start-2,start-3,join-1,join-2,join-3 T:1:lock,wait,unlock T:2:lock,twait-2,unlock T:3:set",
     "scen sem 1 5 999999999 1000000 0 1 T:0:start-1,start-2,join-1,join-2 T:1:wait,twait-1 T:2:signal,trywait",
     "scen thr 0 0 0 1 0 0 T:0:join-1,start-1,start-1,join-1,join-1 T:4294967295:",
+    "scen sig 0 5 0 1 1 0 T:0:start-1,wait,destroy,join-1 T:1:set",
 ]
 
 
